@@ -16,13 +16,19 @@ def run_one(m, max_runs, procs):
     d = tempfile.mkdtemp(prefix='scmo-mut-')
     try:
         shutil.copytree('/repo/singlecellmultiomics', os.path.join(d, 'singlecellmultiomics'), ignore=shutil.ignore_patterns('__pycache__'))
-        f = os.path.join(d, m['file'])
-        before = open(f, newline='').read()
-        expr = m['sed']
-        subprocess.run(['sed', '-i', '-z' if '\\n' in expr and False else '-e', expr, f] if False else ['sed', '-i', expr, f], check=True)
-        after = open(f, newline='').read()
-        if after == before:
-            return m['id'], 'DID-NOT-APPLY', 0.0, ''
+        if m.get('patch'):
+            r = subprocess.run(['patch', '-p1', '-d', d, '-i', os.path.join(HERE, m['patch'])], capture_output=True, text=True)
+            if r.returncode:
+                return m['id'], 'DID-NOT-APPLY', 0.0, r.stdout[-200:]
+            f = os.path.join(d, 'singlecellmultiomics', '__init__.py')
+        else:
+            f = os.path.join(d, m['file'])
+            before = open(f, newline='').read()
+            expr = m['sed']
+            subprocess.run(['sed', '-i', expr, f], check=True)
+            after = open(f, newline='').read()
+            if after == before:
+                return m['id'], 'DID-NOT-APPLY', 0.0, ''
         # compiles?
         r = subprocess.run(['/venv/bin/python', '-m', 'py_compile', f], capture_output=True, text=True)
         if r.returncode:
